@@ -56,7 +56,7 @@ pub mod logger_handle {
     }
 
     /// C05 "push/pop is an exact stack": over the postconditions above, a pop after a push restores stack and active spec
-    pub proof fn lemma_stack(h0: &LoggerHandle, h1: &LoggerHandle, h2: &LoggerHandle, s: LogSpecification)
+    pub proof fn lemma_stack(h0: &LoggerHandle, h1: &LoggerHandle, h2: &LoggerHandle, s: LogSpecification) //@lemma C05
         requires
             h1.stack() == h0.stack().push(h0.active()), h1.active() == s,                                   // push.post
             h1.stack().len() > 0 ==> h2.stack() == h1.stack().drop_last() && h2.active() == h1.stack().last(), // pop.post
